@@ -51,7 +51,7 @@ def run_case(case):
     if not simrun.admissible(npts, nprocs):
         return result(SKIP, what="process grid not admissible")
     P = nprocs[0] * nprocs[1]
-    c = simrun.small_constants(npts, degrees=(3, 3, 3, deg), seed=case["seed"] % 1000)
+    c = simrun.small_constants(npts, degrees=(3, 3, 3, deg), seed=case["seed"] % 1000, offsets=True)
     eta, bs, breaks = pg.make_space(spl, c.npts, c.splineDegrees, pg.std_domain(c))
     rs = np.random.RandomState(case["seed"] % (1 << 31))
     nr, nth, nz, nv = npts
